@@ -40,9 +40,20 @@ class AbsFunctionClass:
     """A class of the stream/function catalogue as seen by the reply logic: calling it builds a function object of that
     stream and function."""
 
-    def __call__(self, *args):
+    def __call__(self, value=None):
         raise NotImplementedError("external")
 
 
 class AbsFunction:
     """A stream/function object handed to send_response (ghost: g_stream, g_function, g_id)."""
+
+
+class AbsDecoded:
+    """A decoded stream/function as far as a handler looks at it (fields are AbsItem objects)."""
+
+
+class AbsItem:
+    """A decoded data item; get() returns the value it denotes (ghost g_value)."""
+
+    def get(self):
+        raise NotImplementedError("external")
